@@ -146,6 +146,41 @@ def run(ctx):
         if not np.allclose(np.asarray(yr32, float)[vis], want32[vis], rtol=1e-6, atol=0) or np.any(np.asarray(yr32, float) < -1e-12):
             bad("plot_recovery_rate does not draw the time derivative of recovery (run on a float32 time grid)", dict(kind="ideal", nx=30, time_grid="float32, quadratic", nt=nt32),
                 dict(worst_rel_error_in_plotted_window=float(np.abs(np.asarray(yr32, float)[vis] / want32[vis] - 1).max()), negative_rates=int((np.asarray(yr32, float) < 0).sum())))
+    # ---------------- a user subclass whose recovery_factor has another default (mass-balance recovery unless told otherwise): the helpers
+    # document that they draw reservoir.recovery_factor() - what THE OBJECT returns, not what the base class would
+    from vlib import rescorr as _rc
+    from bluebonnet.flow import FlowProperties, SinglePhaseReservoir
+
+    class MassBalanceReservoir(SinglePhaseReservoir):
+        def recovery_factor(self, time=None, density=True):
+            return super().recovery_factor(time, density)
+
+    class HalvedIdeal(IdealReservoir):
+        def recovery_factor(self, time=None, density=False):       # a subclass reporting recovery of a two-wing completion per wing
+            return 0.5 * super().recovery_factor(time, density)
+    tb_u = _rc.shipped_gas(stride=10)
+    tu = np.linspace(0, 1.6, 60) ** 2
+    for res_u, who in ((MassBalanceReservoir(25, 1500.0, 8000.0, FlowProperties(tb_u, 8000.0)), "subclass of SinglePhaseReservoir whose recovery_factor defaults to density=True"),
+                       (HalvedIdeal(25, 1500.0, 8000.0, None), "subclass of IdealReservoir whose recovery_factor returns half the base value")):
+        res_u.simulate(tu.copy())
+        rf_u = np.array(res_u.recovery_factor(), float)
+        for ticks in (False, True):
+            fig, ax = plt.subplots()
+            plotting.plot_recovery_factor(res_u, ax=ax, change_ticks=ticks)
+            (xu, yu), = line_data(ax)
+            plt.close(fig)
+            fig, ax = plt.subplots()
+            with np.errstate(all="ignore"):
+                plotting.plot_recovery_rate(res_u, ax=ax, change_ticks=ticks)
+            (xru, yru), = line_data(ax)
+            plt.close(fig)
+            ev += 2
+            if not (np.array_equal(xu, tu) and np.allclose(yu, rf_u, rtol=1e-12, atol=1e-15)):
+                bad("plot_recovery_factor does not draw what reservoir.recovery_factor() returns", dict(reservoir=who, ticks=ticks),
+                    dict(drawn_last=float(np.asarray(yu, float)[-1]), recovery_factor_last=float(rf_u[-1])))
+            if not np.allclose(yru, np.gradient(rf_u, tu), rtol=1e-9, atol=1e-12, equal_nan=True):
+                bad("plot_recovery_rate does not draw the time derivative of what reservoir.recovery_factor() returns", dict(reservoir=who, ticks=ticks),
+                    dict(drawn_at_step_3=float(np.asarray(yru, float)[3]), derivative_at_step_3=float(np.gradient(rf_u, tu)[3])))
     # ---------------- production comparison figure
     import pandas as pd
     from lmfit import Parameters
@@ -301,6 +336,16 @@ def run(ctx):
         if not (np.allclose(f, np.sqrt(base.astype(float)), rtol=rt, atol=0) and np.allclose(b, base.astype(float), rtol=rt, atol=0)):
             bad("square-root axis transform is not the (double-precision) square root / round trip fails for this input type",
                 dict(input_type=getattr(conv, "__name__", str(conv)), values=base.tolist()), dict(transform=[float(x) for x in f], round_trip=[float(x) for x in b]))
+    # ... and the other way round - inverse first, then the transform - on integer arrays whose squares do not fit their own type (times
+    # in seconds held as int32; fixed 2026-10: the inverse squared in the caller's integer type, 50 000 came back as NaN)
+    for conv, vals_ in ((np.int32, [0, 3, 46340, 46341, 50000, 2000000]), (np.uint32, [0, 65535, 65536, 100000]), (np.int64, [0, 50000, 3000000000]), (np.int16, [0, 181, 182, 30000])):
+        a_i = np.array(vals_, dtype=conv)
+        sq = np.asarray(inv.transform(a_i), float)
+        back_i = np.asarray(tr.transform_non_affine(sq), float)
+        ev += 1
+        if not (np.allclose(sq, np.array(vals_, float) ** 2, rtol=1e-15, atol=0) and np.allclose(back_i, np.array(vals_, float), rtol=1e-14, atol=0)):
+            bad("the inverse of the square-root axis transform does not square this non-negative array (inverse, then transform, is not the identity)",
+                dict(input_type=np.dtype(conv).name, values=vals_), dict(inverse=[float(x) for x in sq], then_transform=[float(x) for x in back_i]))
     # ---------------- model <-> implementation
     res_m = coq_model(ctx, items)
     if res_m is not None:
